@@ -201,7 +201,7 @@ theorem fieldErrors_dataOnly (ctx : Ctx) (spec spec' : ColSpec) (fn : Option Str
   have hnm : (spec'.name.isNone || spec'.name == fn) = true := by
     rcases hname with h | h <;> simp [h]
   cases hds : spec.dtype <;> cases ctx <;>
-    simp [docScopes, optRuns, Scope.runs, hu, hr, hc, hn, hd, hnm]
+    simp [docScopes, optRuns, Scope.runs, hu, hr, hc, hn, hd, hnm, dtypeErrs]
 
 /-- **C18 (e')** under DATA_ONLY the verdict is that of the schema restricted to its data-level
 constraints — outside the recorded region -/
